@@ -625,13 +625,19 @@ func registerHandlers[T controllers.ComparableObject](c *Controller,
 	handler func(T, T, model.Event) error, filter FilterOutFunc[T],
 ) {
 	wrappedHandler := func(prev, curr T, event model.Event) error {
-		curr = informer.Get(curr.GetName(), curr.GetNamespace())
-		if controllers.IsNil(curr) {
-			// this can happen when an immediate delete after update
-			// the delete event can be handled later
-			return nil
+		latest := informer.Get(curr.GetName(), curr.GetNamespace())
+		if controllers.IsNil(latest) {
+			// The object has been deleted since; the delete event is handled later. An add can be skipped: nothing has
+			// been derived from the object yet. An update cannot: the delete handler sees only the LAST version of the
+			// object, so whatever was derived from an earlier version under another key (the previous service of a
+			// relabelled EndpointSlice, the previous IP of a pod, a removed endpoint address, the previous annotation of
+			// a namespace) would never be cleaned up. Handle the update with the object the event carries.
+			if event != model.EventUpdate {
+				return nil
+			}
+			return handler(prev, curr, event)
 		}
-		return handler(prev, curr, event)
+		return handler(prev, latest, event)
 	}
 	// Pre-build our metric types to avoid recompute them on each event
 	adds := k8sEvents.With(typeTag.Value(otype), eventTag.Value("add"))
